@@ -1,12 +1,94 @@
-/- Drv/C17.lean — driver handler for property C17 (line protocol; core-only imports). -/
+/- Drv/C17.lean — driver handler for property C17 (interpretation stack; core-only imports). -/
 import FunsorVerif.Core.Sexp
-import FunsorVerif.Core.XR
+import FunsorVerif.Model.C17
+import FunsorVerif.Gen.C17Interps
 namespace FV.Drv.C17
-open FV
+open FV FV.C17
 
-/-- `args` are the top-level S-expressions following the property tag on the request line. -/
+/-! The harness's own interpretations (fv/harness/c17_rt.py): P, and W = PrioritizedInterpretation(W1, W2, W3). -/
+def userLeaves : List String := ["P", "W1", "W2", "W3"]
+def userChains : List (String × List String) := [("W", ["W1", "W2", "W3"])]
+def userRules : List (String × List String) := [("P", ["a", "bin"]), ("W2", ["b"]), ("W3", ["a", "b"])]
+
+/-- funsor's tables (regenerated from /repo) + the harness's. -/
+def env : Env :=
+  Env.ofTables (Gen.C17.leaves ++ userLeaves) (Gen.C17.chains ++ userChains)
+    (Gen.C17.probeRules ++ userRules) userLeaves Gen.C17.adjointProbes ["S"]
+
+def observable (h : String) : Bool := userLeaves.contains h || h == "subst"
+
+def parseCtx (s : String) : Ctx :=
+  if s == "memoize" then .memoize
+  else if s == "tape" then .tape
+  else if s == "subst" then .subst true
+  else if s == "subst0" then .subst false
+  else .named s
+
+mutual
+def parseProg : Nat → Sexp → Option Prog
+  | 0, _ => none
+  | _ + 1, .atom "obs" => some .obs
+  | _ + 1, .atom "raise" => some .raise
+  | _ + 1, .atom "skip" => some .skip
+  | _ + 1, .list [.atom "probe", .atom k, b] => b.asBool?.map (Prog.probe k)
+  | f + 1, .list [.atom "with", .atom c, b] => (parseProg f b).map (Prog.withI (parseCtx c))
+  | f + 1, .list [.atom "deco", .atom c, b] => (parseProg f b).map (Prog.deco (parseCtx c))
+  | f + 1, .list [.atom "catch", b] => (parseProg f b).map Prog.catch
+  | f + 1, .list (.atom "seq" :: ps) => parseSeq f ps
+  | _ + 1, _ => none
+def parseSeq : Nat → List Sexp → Option Prog
+  | 0, _ => none
+  | _ + 1, [] => some .skip
+  | f + 1, [p] => parseProg f p
+  | f + 1, p :: ps => do
+      let a ← parseProg f p
+      let b ← parseSeq f ps
+      pure (.seq a b)
+end
+
+def showRun (p : Prog) : String :=
+  match initStack env Gen.C17.baseStack with
+  | none => "err bad-base-stack"
+  | some s0 =>
+    let (o, st) := exec env p { stack := s0, log := [] }
+    let obs := st.log.reverse.map (Obs.canon observable)
+    "ok " ++ "|".intercalate (o.canon :: canonStack st.stack :: obs)
+
+/--
+  C17 exec PROG          run PROG from the import-time stack; answer `ok outcome|final stack|obs…`
+  C17 enter NAME…        enter the named contexts one inside the other; answer the stack or the error
+  C17 handler K NAME…    which leaf interprets probe K inside those nested contexts
+-/
 def handle (args : List Sexp) : String :=
   match args with
-  | _ => "err unimplemented"
+  | [.atom "exec", p] =>
+    match parseProg 100000 p with
+    | some prog => showRun prog
+    | none => "err bad-program"
+  | .atom "enter" :: cs =>
+    match initStack env Gen.C17.baseStack, cs.mapM Sexp.asAtom? with
+    | some s0, some names =>
+      let r := names.foldl (fun (acc : Except Err Stack) n =>
+        match acc with
+        | .error e => .error e
+        | .ok s => enter env (parseCtx n) s) (.ok s0)
+      match r with
+      | .ok s => "ok " ++ canonStack s
+      | .error e => "ok " ++ e.canon
+    | _, _ => "err bad-args"
+  | .atom "handler" :: .atom k :: cs =>
+    match initStack env Gen.C17.baseStack, cs.mapM Sexp.asAtom? with
+    | some s0, some names =>
+      let r := names.foldl (fun (acc : Except Err Stack) n =>
+        match acc with
+        | .error e => .error e
+        | .ok s => enter env (parseCtx n) s) (.ok s0)
+      match r with
+      | .ok s => match top? s with
+        | some t => "ok " ++ (match handler env k t with | some h => h | none => "-")
+        | none => "ok IndexError"
+      | .error e => "ok " ++ e.canon
+    | _, _ => "err bad-args"
+  | _ => "err bad-request"
 
 end FV.Drv.C17
